@@ -4,7 +4,7 @@
 
 From CB Require Import ProofLib Spec MonitorSound.
 From CB Require Import Inv_map Inv_filter Inv_scan Inv_skip Inv_take Inv_from_iter Inv_for_each
-  Inv_interval Inv_merge Inv_concat Inv_combine Inv_share.
+  Inv_interval Inv_merge Inv_concat Inv_combine Inv_share Inv_flatten.
 
 Set Implicit Arguments.
 
@@ -132,6 +132,13 @@ Theorem concat_protocol (n : nat) p (c : cfg (concat_op n)) :
 Proof.
   intros H Hc. unstd H. eapply protocol_of_safe; eauto.
   now destruct (@concat_safe n p Hn Hr Hx Hc0 Hl c Hc).
+Qed.
+
+Theorem flatten_protocol p (c : cfg flatten_op) :
+  std p -> reach p g_flatten c -> protocol_ok (trace c).
+Proof.
+  intros H Hc. unstd H. eapply protocol_of_safe; eauto.
+  now destruct (@flatten_safe p Hn Hr Hx Hc0 Hl c Hc).
 Qed.
 
 Theorem share_protocol p (c : cfg share_op) :
